@@ -17,6 +17,25 @@ from sa import wrap
 from sa.hsmsites import handler_call_nodes, handler_calls
 
 
+def _reads_state(g, f, n, name, selfn, stores, nm):
+    """the only definition of local `name` reaching n is `name = self.state.fun`, made after the last store to state.fun"""
+    from sa.hsmsites import reaching_defs
+    rd, valmap = reaching_defs(g, f.params)
+    ds = rd[n].get(name, set())
+    if len(ds) != 1:
+        return False
+    d = next(iter(ds))
+    if d[0] == 'param' or dotted(valmap.get(d)) != selfn + '.state.fun':
+        return False
+    dn = [x for x in g.nodes if x.id == d[0]]
+    if not dn:
+        return False
+    dn = dn[0]
+    if not (any(g.dominates(s_, dn) for s_ in stores) or nm == 'start_at'):
+        return False
+    return not any(g.exists_path(dn, s_) and g.exists_path(s_, n) for s_ in stores)
+
+
 def check(run, model, tier):
     run.explanation = ('Post-dominance and value-identity analysis of the bookkeeping assignments in dispatch and start_at relative to every handler '
                        'call (handler-call sites are located by the shared site classifier), and a census of handler calls made by instrumentation '
@@ -68,6 +87,9 @@ def check(run, model, tier):
                 if bd == selfn + '.state.fun':
                     # read back from state.fun: a store to state.fun must dominate
                     ok = any(g.dominates(s, n) for s in stores) or nm == 'start_at'
+                elif isinstance(base, ast.Name) and _reads_state(g, f, n, base.id, selfn, stores, nm):
+                    # a local that was read back from state.fun after the last store (an extracted "describe" step)
+                    ok = True
                 elif isinstance(base, ast.Name):
                     # the same local was the last value stored in state.fun
                     dom_stores = [s for s in stores if g.dominates(s, n)]
@@ -119,7 +141,7 @@ def check(run, model, tier):
     cs = hq.methods.get('current_state')
     if cs is None:
         raise AnalysisError('HsmWithQueues.current_state not found')
-    rets = [n for n in walk_shallow(cs.node) if isinstance(n, ast.Return) and n.value is not None]
+    rets = [n for n in walk_shallow(cs.node) if isinstance(n, ast.Return) and n.value is not None and not (isinstance(n.value, ast.Constant) and n.value.value is None)]
     cdefs = local_defs(cs.node)
     ok = bool(rets)
     for r in rets:
